@@ -212,6 +212,16 @@ func (rc *replayCtx) expr(pfx string, t types.Type, objMem func(root types.Type,
 		rc.bad = "netip.Addr with unknown z handle"
 		return "netip.Addr{}"
 	}
+	if nt, ok := t.(*types.Named); ok && nt.Obj().Pkg() != nil && nt.Obj().Pkg().Path() == "net/netip" && nt.Obj().Name() == "Prefix" {
+		rc.imports["net/netip"] = true
+		st := nt.Underlying().(*types.Struct)
+		bp := rc.leaf(pfx + ".bitsPlusOne").Int64()
+		if bp == 0 {
+			return "netip.Prefix{}"
+		}
+		ip := rc.expr(pfx+".ip", st.Field(0).Type(), objMem)
+		return fmt.Sprintf("netip.PrefixFrom(%s, %d)", ip, bp-1)
+	}
 	switch u := t.Underlying().(type) {
 	case *types.Basic:
 		switch {
